@@ -3,6 +3,7 @@ import MaltModel.Analysis.ActivityFn
 import MaltModel.Spec.Symtable
 import MaltModel.Spec.Dynamic
 import MaltModel.Analysis.ActivityHyp
+import MaltModel.Spec.Outer
 /- Driver handlers for the C08 correspondence (glue only; no theorem depends on this file). -/
 namespace Malt.Drv.C08
 open Malt Malt.Py Malt.Analysis
@@ -90,7 +91,17 @@ def handlers : List (String × (List Sexp → String)) := [
       let [x] := a | none
       let s ← parseStmt x
       pure (toString (Sexp.list [Sexp.ofBool (FragS s), Sexp.ofBool (SpecOkS s), Sexp.ofBool (uniqueAnnos (analyze s).annos),
-        Sexp.ofBool (allDeclsDisjoint s), Sexp.ofBool (FragSC s), Sexp.ofBool (FragSD s)])))
+        Sexp.ofBool (allDeclsDisjoint s), Sexp.ofBool (FragSC s), Sexp.ofBool (FragSD s),
+        Sexp.ofBool (Spec.nonlocalsResolve s)]))),
+  -- every def block of the tree: id, the names it resolves outside (`outerB`), the names visible to it
+  ("c08.outer", fun a => run do
+      let [x] := a | none
+      let s ← parseStmt x
+      match Spec.blockOf s with
+      | none => pure "()"
+      | some root =>
+          let fs := (Spec.ctxBlocks [] root).filter fun p => p.1.kind == .function
+          pure (toString (Sexp.list (fs.map fun p => .list [Sexp.ofNat p.1.id, strs (Spec.outerB p.1), strs p.2]))))
 ]
 
 end Malt.Drv.C08
